@@ -203,3 +203,59 @@ func Project(ver, level int, tokens map[string]string) map[string]string {
 	}
 	return r
 }
+
+// Model is the reference decoder state after a token sequence (DESIGN.md §5.2): what the
+// decoder must remember besides the object.
+type Model struct {
+	Seen     map[string]string // first occurrence of each supported metric name -> code as written
+	Valid    bool              // every seen code is a specification code
+	Deferred bool              // an unsupported-metric token occurred
+	Aborted  bool              // a token with an aborting defect occurred (malformed, duplicate, bad value)
+	InOrder  bool              // v2: first occurrences are in canonical order
+}
+
+// Scan runs the reference model over tokens (v3: without the version prefix).
+func Scan(ver, level int, toks []string) Model {
+	m := Model{Seen: map[string]string{}, Valid: true}
+	order := []string{}
+	for _, t := range toks {
+		p := strings.Split(t, ":")
+		if len(p) != 2 || p[0] == "" || p[1] == "" {
+			m.Aborted = true
+			continue
+		}
+		def := spec.Find(ver, p[0])
+		if def == nil || def.Level > level {
+			m.Deferred = true
+			continue
+		}
+		if _, dup := m.Seen[p[0]]; dup {
+			m.Aborted = true
+			continue
+		}
+		m.Seen[p[0]] = p[1]
+		order = append(order, p[0])
+		if !def.Has(p[1]) {
+			m.Aborted = true
+			m.Valid = false
+		}
+	}
+	canon := []string{}
+	for _, d := range spec.UpTo(ver, level) {
+		if _, ok := m.Seen[d.Name]; ok {
+			canon = append(canon, d.Name)
+		}
+	}
+	m.InOrder = strings.Join(order, ",") == strings.Join(canon, ",")
+	return m
+}
+
+// Key renders the model state canonically (sorted tokens).
+func (m Model) Key() string {
+	ks := make([]string, 0, len(m.Seen))
+	for k, v := range m.Seen {
+		ks = append(ks, k+":"+v)
+	}
+	sort.Strings(ks)
+	return strings.Join(ks, "/")
+}
